@@ -18,6 +18,7 @@ mod addr;
 mod endian;
 mod streams;
 mod regions;
+mod sched;
 
 use std::io::{BufRead, BufWriter, Write};
 
@@ -40,6 +41,7 @@ fn main() {
         "endian" => Box::new(endian::EndianExec::default()),
         "streams" => Box::new(streams::StreamExec::default()),
         "regions" => Box::new(regions::RegionsExec::default()),
+        "sched" => Box::new(sched::SchedExec::default()),
         _ => {
             eprintln!("unknown module {module}");
             std::process::exit(2);
@@ -52,7 +54,14 @@ fn main() {
         }
         let v: serde_json::Value = serde_json::from_str(&line).expect("parse program line");
         let res = exec.step(&v);
-        writeln!(out, "{}", res).unwrap();
+        match res {
+            serde_json::Value::Array(items) => {
+                for it in items {
+                    writeln!(out, "{}", it).unwrap();
+                }
+            }
+            other => writeln!(out, "{}", other).unwrap(),
+        }
     }
     out.flush().unwrap();
 }
